@@ -651,13 +651,17 @@ def r6_error_unwinding(ctx, rule="C05.R6"):
     # (SELECT CASE: the selected value) and on the register stack (FOR: limit and step) is still needed by
     # their closing code, so the error branch must not shrink either stack
     err_region = _error_branch_region(interp)
-    for field in ("value_stack", "register_stack"):
+    # ... and a call whose argument write-back runs a FUNCTION (`S A(F(1))`) has by-reference values and its
+    # own result parked on by_ref_stack / function_result while that FUNCTION runs: a handled error inside it
+    # must leave them for the outer call
+    for field in ("value_stack", "register_stack", "by_ref_stack", "function_result"):
         hit = _shrinks_field(prog, interp, err_region, field)
         ctx.decide(not hit, rule, "%s:error-branch-keeps:%s" % (rule, field), interp.loc,
                    "the error branch does not shrink %s" % field,
                    "the error branch of the fetch-execute loop shrinks %s (%s): a construct that is still open when "
-                   "the program resumes (SELECT CASE keeps the selected value there, FOR its limit and step) pops "
-                   "an entry that is gone - stack underflow at END SELECT / NEXT after a handled error"
+                   "the program resumes (SELECT CASE keeps the selected value there, FOR its limit and step, a call in "
+                   "flight its by-reference values and result) pops an entry that is gone - stack underflow at "
+                   "END SELECT / NEXT / the write-back after a handled error"
                    % (field, hit))
     one = ctx.anchor_method("Interpreter", "interpret_one")
     sw1, regions = _arm_regions(prog, one, "::Instruction")
@@ -708,7 +712,7 @@ def r6_error_unwinding(ctx, rule="C05.R6"):
                    "skips (%s): the state PushStack made stays on the context stack and, after RESUME NEXT, the caller "
                    "runs on the failed built-in's empty variables" % (v, sorted(x.split("::")[-1] for x in missing)))
     ctx.analysed_units(rule, shrinkers=sorted(x.split("::")[-1] for x in direct))
-    ctx.require(rule, 9)
+    ctx.require(rule, 11)
 
 
 def r7_transfer_committed_last(ctx, rule="C05.R7"):
